@@ -282,3 +282,95 @@ pub fn distinct(files: &[String]) -> u64 {
     v.dedup();
     v.len() as u64
 }
+
+/// Every integer literal of the emulator's CURRENT source text (the crate's `src/`, which links into `/repo/src`; the harness's
+/// own files are left out). Generators mix these values — and their neighbours — into register contents and addresses, so that a
+/// comparison against any constant in the code, whatever the constant is, is exercised from both sides.
+pub fn source_numbers() -> &'static Vec<u64> {
+    static N: std::sync::OnceLock<Vec<u64>> = std::sync::OnceLock::new();
+    N.get_or_init(|| {
+        fn scan(text: &str, out: &mut std::collections::BTreeSet<u64>) {
+            let b = text.as_bytes();
+            let mut i = 0;
+            while i < b.len() {
+                let c = b[i];
+                let prev_ident = i > 0 && (b[i - 1].is_ascii_alphanumeric() || b[i - 1] == b'_');
+                if c.is_ascii_digit() && !prev_ident {
+                    let (radix, mut j) = if c == b'0' && i + 1 < b.len() && (b[i + 1] == b'x' || b[i + 1] == b'X') {
+                        (16, i + 2)
+                    } else if c == b'0' && i + 1 < b.len() && b[i + 1] == b'b' {
+                        (2, i + 2)
+                    } else {
+                        (10, i)
+                    };
+                    let mut v: u64 = 0;
+                    let mut digits = 0;
+                    let mut ok = true;
+                    while j < b.len() {
+                        let d = b[j];
+                        if d == b'_' {
+                            j += 1;
+                            continue;
+                        }
+                        let dv = match (d as char).to_digit(radix) {
+                            Some(x) => x as u64,
+                            None => break,
+                        };
+                        match v.checked_mul(radix as u64).and_then(|x| x.checked_add(dv)) {
+                            Some(x) => v = x,
+                            None => {
+                                ok = false;
+                            }
+                        }
+                        digits += 1;
+                        j += 1;
+                    }
+                    if ok && digits > 0 {
+                        out.insert(v);
+                    }
+                    // skip a type suffix / the rest of the token
+                    while j < b.len() && (b[j].is_ascii_alphanumeric() || b[j] == b'_') {
+                        j += 1;
+                    }
+                    i = j.max(i + 1);
+                } else {
+                    i += 1;
+                }
+            }
+        }
+        fn walk(dir: &Path, out: &mut std::collections::BTreeSet<u64>) {
+            let mut entries: Vec<PathBuf> = match std::fs::read_dir(dir) {
+                Ok(rd) => rd.filter_map(|e| e.ok().map(|e| e.path())).collect(),
+                Err(_) => return,
+            };
+            entries.sort();
+            for p in entries {
+                let name = p.file_name().and_then(|n| n.to_str()).unwrap_or("").to_string();
+                if p.is_dir() {
+                    walk(&p, out);
+                } else if name.ends_with(".rs") && !name.starts_with("m_") && !matches!(name.as_str(), "main.rs" | "util.rs" | "isa.rs") {
+                    if let Ok(t) = std::fs::read_to_string(&p) {
+                        scan(&t, out);
+                    }
+                }
+            }
+        }
+        let mut out = std::collections::BTreeSet::new();
+        walk(Path::new(concat!(env!("CARGO_MANIFEST_DIR"), "/src")), &mut out);
+        out.into_iter().collect()
+    })
+}
+
+/// a value of the source-literal pool or one of its neighbours (0 when the pool is empty)
+pub fn source_number(rng: &mut Rng) -> u64 {
+    let pool = source_numbers();
+    if pool.is_empty() {
+        return 0;
+    }
+    let v = pool[rng.below(pool.len() as u64) as usize];
+    match rng.below(4) {
+        0 => v.wrapping_sub(1),
+        1 => v.wrapping_add(1),
+        _ => v,
+    }
+}
